@@ -200,7 +200,12 @@ package parser
 // The mark is the position the next literal will carry, so the text collected
 // so far is closed (lit) before the mark moves on to a nested construct:
 // otherwise the literal would be recorded at the position of what follows it.
+// "${#" followed by "#", "?" or "-" is the length of that special parameter
+// when "}" comes next (${##}, ${#?}, ${#-}) and the parameter "#" with an
+// operator otherwise: the decision needs one more character of look-ahead,
+// so none of the three may be taken for an operator at once.
 //@ func (*lexer).scanParamExpInBraces
+//@   assert[C13] at call parser.(*lexer).mark#2: a-special-parameter-after-the-length-sign-is-looked-at-one-character-further: r != '#' && r != '?' && r != '-'
 //@   assert[C04] at call parser.(*lexer).mark#9: a-literal-is-closed-before-the-mark-moves: l.b == ""
 //@   assert[C04] at call parser.(*lexer).mark#8: a-literal-is-closed-before-the-mark-moves: l.b == ""
 //@   ensures[C03 C10] a-scanner-that-gives-up-has-recorded-why: !result ==> l.err != nil
